@@ -77,8 +77,15 @@ func VerifC15MapOrder() {
 	which := vChoice(5)
 	a := jsonObject{"a": vNum(), "b": vNum()}
 	b := jsonObject{"b": vNum(), "c": vNum()}
-	if vChoice(2) == 1 {
+	switch vChoice(4) {
+	case 1:
 		b = jsonObject{"a": jsonObject{"x": vNum(), "y": vNum()}}
+	case 2: // several keys added and removed at once
+		a = jsonObject{"p": vNum()}
+		b = jsonObject{"m": vNum(), "n": vNum()}
+	case 3: // nested: an object member gains two keys
+		a = jsonObject{"k": jsonObject{"x": vNum()}}
+		b = jsonObject{"k": jsonObject{"m": vNum(), "n": vNum()}}
 	}
 	text := b.Json()
 	f := func() string {
